@@ -20,6 +20,7 @@ ASSUMPTIONS = ["per box, pixels where the level holds only one of the two bracke
                "pool shim M1"]
 REQUIRED_OBS = {"plotfiles_written": 100, "boxes_checked": 300, "pixels_decided": 5000,
                 "splitting_cases": 1, "multi_level": 20, "cli_runs": 10}
+CHAIN = {"quick": 2, "thorough": 20}
 TIMEOUT = {"quick": 600, "thorough": 3000}
 NAMES = ["ax", "ay", "az", "tagx", "tagy", "tagz", "rnd", "near", "cix", "ciy", "ciz"]
 
